@@ -116,18 +116,30 @@ Qed.
 (** * The composition: export of a serialised logical image
 
     Specification side (AkaiSpec.v): a logical image [L] (partitions of [lp_sectors] sectors,
-    each a list of volumes (name, type 1|3), each a list of sample files with their directory
-    name and type, the 140-byte-header fields and the PCM bytes), an allocation [A] (for every
-    volume directory and every file the sectors it occupies, in chain order), the serialiser
-    [akai_serialise L A] writing the on-disc format, validity [image_alloc_ok L A] (sectors
-    pairwise distinct inside a partition, data sectors 3 <= s < size <= 11386, enough sectors for
-    the content - a file may fill its last sector exactly -, directories as reserved-flag runs of
-    consecutive sectors not adjacent to another run, names valid AKAI text, markers
-    0 <= start < end <= count, file length = 140 + 2*count < 2^24, at most 100 volumes) and
-    [image_plain L] (sibling names pairwise distinct after export-name sanitising and no
-    left/right partner present: the renaming and pairing behaviour is C05/C06).  NOTHING is
-    assumed about the order or contiguity of a file's sectors, the number of partitions,
-    volumes or files. *)
+    each a list of volumes (name, type 1|3) together with the volume-table SLOT each one sits in
+    ([lp_slots]: any strictly increasing slots out of 0..99 - the table may have HOLES, slot 99
+    may be used; every other slot is written inactive), each volume a list of directory ENTRIES
+    in directory order: SAMPLE files with their directory name and type, the 140-byte-header
+    fields and the PCM bytes, and GHOSTS - slots that are not sample files: 12 name bytes of any
+    value (bytes 8-9 not spelling the end-of-table mark), a type byte of any value except a
+    sample's (115, 243) and a program's (112, 240) - so deleted entries (0), types the tool does
+    not know (0xF8, 0x74, ...) and drum / QL / effects files (100, 113, 120) -, any 3-byte size
+    and any content), an allocation [A] (for every volume directory and every entry the sectors
+    it occupies, in chain order; a ghost may have none), the serialiser [akai_serialise L A]
+    writing the on-disc format, validity [image_alloc_ok L A] (sectors pairwise distinct inside a
+    partition, data sectors 3 <= s < size <= 11386, enough sectors for the content - a file may
+    fill its last sector exactly -, directories as reserved-flag runs of consecutive sectors not
+    adjacent to another run, names valid AKAI text, markers 0 <= start < end <= count, file
+    length = 140 + 2*count < 2^24, slots strictly increasing inside 0..99, a drum / QL / effects
+    ghost has at least one sector) and [image_plain L] (sibling names - of the volumes of a
+    partition, of the SAMPLES of a volume - pairwise distinct after export-name sanitising and no
+    left/right partner present: the renaming and pairing behaviour is C05/C06).  Ghost names are
+    under NO hypothesis: no ghost becomes a child of its volume (not in the model, not in the
+    real code, where Volume._realize_files drops the files whose content parses to None before
+    the naming routines run), so a drum file may even carry the name of a sample next to it
+    (second example below).  NOTHING is assumed about the order or contiguity of an entry's
+    sectors, the number of partitions, volumes or entries.
+    NOT covered: program files (112 / 240) among the entries - the tool parses their content. *)
 
 (** (a) the partition header written at any offset of any image parses back to the written size,
     volume entries and allocation table *)
@@ -162,8 +174,27 @@ Theorem akai_sample_header_parses :
 Proof. exact parse_sample_written. Qed.
 Print Assumptions akai_sample_header_parses.
 
+(** (c) a ghost's directory entry contributes nothing to its volume: whatever the tool makes of
+    it (skipped, or kept as a file entry that is neither sample nor program), no child results *)
+Theorem akai_ghost_entry_no_child :
+  forall P AP, part_alloc_ok P AP -> forall V AV, In (V, AV) (combine (lp_vols P) AP) ->
+  forall g secs, In (LGhost g, secs) (combine (lv_entries V) (av_files AV)) ->
+    exists k, kept (partition_bytes P AP) (sat_of (part_items P AP)) (dir_entry (LGhost g) secs) = Ok k
+              /\ filter_map realize_file k = [].
+Proof. exact kept_ghost. Qed.
+Print Assumptions akai_ghost_entry_no_child.
+
+(** a ghost whose name field is valid AKAI text (the usual case) meets the conditions on the
+    name bytes: valid text never spells the end-of-table mark *)
+Theorem akai_ghost_named_ok :
+  forall n ty size data,
+    name_ok n -> is_byte ty -> ~ In ty [115; 243; 112; 240] -> 0 <= size < 16777216 -> Forall is_byte data ->
+    ghost_ok (ghost_named n ty size data).
+Proof. exact ghost_named_ok_lemma. Qed.
+Print Assumptions akai_ghost_named_ok.
+
 (** THE COMPOSED THEOREM.  For every valid (L, A) with plain sibling names, [export] of the
-    serialised image writes exactly: per partition, volume and file in directory order, one
+    serialised image writes exactly: per partition, volume and SAMPLE in directory order, one
     file at [partition name; volume export name; file export name], with the header's rate
     (44100 when stored as 0), one channel, and as PCM the bytes between the start and end
     markers - and nothing else.  [pn] are the partition names "A:", "B:", ... as sanitised by
@@ -183,17 +214,53 @@ Theorem akai_export_correct_letters :
 Proof. exact akai_export_correct_letters_lemma. Qed.
 Print Assumptions akai_export_correct_letters.
 
+(** The first version of this theorem - volumes packed into slots 0..n-1, sample files only,
+    validity as it was stated then - is the special case [image_v1]; on such images the
+    serialiser writes that version's layout (volume entries first, then inactive ones; one
+    directory entry per file). *)
+Theorem akai_export_correct_v1 :
+  forall L A pn,
+    image_v1 L -> image_alloc_ok_v1 L A -> image_plain L -> partition_export_names (length L) = Ok pn ->
+    akai_export (akai_serialise L A) = Ok (expected pn L).
+Proof. exact akai_export_correct_v1_lemma. Qed.
+Print Assumptions akai_export_correct_v1.
+Theorem akai_v1_layout :
+  forall P AP, partition_v1 P -> part_alloc_ok_v1 P AP ->
+    vol_table P AP = vol_table_v1 P AP /\
+    forall V AV, In (V, AV) (combine (lp_vols P) AP) -> dir_table V AV = dir_table_v1 V AV.
+Proof. exact v1_layout_lemma. Qed.
+Print Assumptions akai_v1_layout.
+
 (** Non-vacuity: the example image of AkaiSpec.v (one 9-sector partition, volume "VOL 1" with its
     directory in sector 4, "KICK" in sector 6 with markers 1..3 and a stored rate of 0, "SNARE.1"
     of 8340 bytes stored BACKWARDS in sectors 8 then 7) satisfies the hypotheses; the theorem
     gives its export, whose two files are spelled out. *)
 Example c01_composed_example :
-  image_alloc_ok ex_logical ex_alloc /\ image_plain ex_logical /\
+  image_v1 ex_logical /\ image_alloc_ok ex_logical ex_alloc /\ image_plain ex_logical /\
   akai_export (akai_serialise ex_logical ex_alloc) = Ok (expected [[65]] ex_logical) /\
   map (fun w => (w_path w, w_rate w, w_channels w, zlen (w_pcm w), firstn 4 (w_pcm w))) (expected [[65]] ex_logical)
   = [([[65]; [86; 79; 76; 32; 49]; [75; 73; 67; 75]], 44100, 1, 4, [3; 4; 5; 6]);
      ([[65]; [86; 79; 76; 32; 49]; [83; 78; 65; 82; 69; 46; 49]], 22050, 1, 8200, [0; 1; 2; 3])].
 Proof.
-  split; [exact ex_alloc_ok|]. split; [exact ex_plain|]. split; [exact ex_export|].
+  split; [exact ex_v1|]. split; [exact ex_alloc_ok|]. split; [exact ex_plain|]. split; [exact ex_export|].
+  vm_compute. reflexivity.
+Qed.
+
+(** Non-vacuity with HOLES and GHOSTS: the second example of AkaiSpec.v - one 40-sector partition,
+    volumes in slots 0, 2 and 99 of the volume table; "FIRST" = KICK, a deleted entry (type 0,
+    garbage name bytes, 300 bytes left in sector 11), SNARE.1 stored backwards; "THIRD" = a DRUM
+    file (type 100) also named "KICK" with a size field of 5000, then the sample KICK; "LAST" =
+    one entry of unknown type 0xF8 without any sector - satisfies the hypotheses; the theorem
+    gives its export: the three samples, nothing for the ghosts, the sample next to the
+    like-named drum file keeps its name. *)
+Example c01_holes_ghosts_example :
+  image_alloc_ok ex2_logical ex2_alloc /\ image_plain ex2_logical /\ ~ image_v1 ex2_logical /\
+  akai_export (akai_serialise ex2_logical ex2_alloc) = Ok (expected [[65]] ex2_logical) /\
+  map (fun w => (w_path w, w_rate w, w_channels w, zlen (w_pcm w), firstn 4 (w_pcm w))) (expected [[65]] ex2_logical)
+  = [([[65]; [70; 73; 82; 83; 84]; [75; 73; 67; 75]], 44100, 1, 4, [3; 4; 5; 6]);
+     ([[65]; [70; 73; 82; 83; 84]; [83; 78; 65; 82; 69; 46; 49]], 22050, 1, 8200, [0; 1; 2; 3]);
+     ([[65]; [84; 72; 73; 82; 68]; [75; 73; 67; 75]], 44100, 1, 4, [3; 4; 5; 6])].
+Proof.
+  split; [exact ex2_alloc_ok|]. split; [exact ex2_plain|]. split; [exact ex2_not_v1|]. split; [exact ex2_export|].
   vm_compute. reflexivity.
 Qed.
